@@ -4523,3 +4523,87 @@ func ruleC11ArrayBufferOffset(c *ctx.Ctx, r *core.Reporter) {
 	r.Check(depends(start, "$offset", 0) && depends(start, "byteOffset", 0), "start", c.Pos(cut.Pos()), fmt.Sprintf("the start `%s` is made of the slice's $offset and the backing array's byteOffset", exprStr(start)))
 	r.Check(end != nil && depends(end, "$length", 0) && depends(end, "byteOffset", 0), "end", c.Pos(cut.Pos()), "the end is the start plus $length, so it moves with byteOffset as well")
 }
+
+// ruleC13ValueCAS: sync/atomic.Value.CompareAndSwap(old, new) panics for inconsistent types only when old HAS
+// a type (`op.typ != nil && np.typ != op.typ` in the original); a nil old value just means "nothing stored is
+// expected" and yields false when something is stored. The overlay's guard must therefore depend on old
+// alone, not on what the Value holds.
+func ruleC13ValueCAS(c *ctx.Ctx, r *core.Reporter) {
+	r.Begin("C13.value-cas", "F-SIB", "the overlay of atomic.Value.CompareAndSwap compares the types of old and new only when old is not nil, whatever is stored", 1)
+	nat := c.Natives()
+	var fd *ast.FuncDecl
+	for _, f := range nat.PkgFiles("sync/atomic") {
+		for _, d := range f.AST.Decls {
+			if x, ok := d.(*ast.FuncDecl); ok && x.Recv != nil && x.Name.Name == "CompareAndSwap" && x.Body != nil && strings.Contains(exprStr(x.Recv.List[0].Type), "Value") {
+				fd = x
+			}
+		}
+	}
+	if fd == nil {
+		r.Info("cas", nativesRootRel+"/sync/atomic", "Value.CompareAndSwap is not overridden")
+		r.Check(true, "old-nil-never-panics", nativesRootRel+"/sync/atomic", "the original implementation is used")
+		return
+	}
+	if fd.Type.Params == nil || fd.Type.Params.NumFields() < 2 {
+		r.Undecided("old-nil-never-panics", nat.Pos(c, fd.Pos()), "unexpected signature")
+		return
+	}
+	var names []string
+	for _, fl := range fd.Type.Params.List {
+		for _, n := range fl.Names {
+			names = append(names, n.Name)
+		}
+	}
+	old := names[0]
+	recv := ""
+	if len(fd.Recv.List[0].Names) > 0 {
+		recv = fd.Recv.List[0].Names[0].Name
+	}
+	// every `if` whose body panics and whose condition compares the types of old and new
+	n, bad := 0, ""
+	site := fd.Pos()
+	ast.Inspect(fd.Body, func(x ast.Node) bool {
+		is, ok := x.(*ast.IfStmt)
+		if !ok {
+			return true
+		}
+		panics := false
+		for _, st := range is.Body.List {
+			if es, ok := st.(*ast.ExprStmt); ok {
+				if ce, ok := es.X.(*ast.CallExpr); ok && exprStr(ce.Fun) == "panic" {
+					panics = true
+				}
+			}
+		}
+		cond := squash(exprStr(is.Cond))
+		if !panics || !strings.Contains(cond, "sameType("+old+",") && !strings.Contains(cond, ","+old+")") {
+			return true
+		}
+		n++
+		site = is.Pos()
+		guardedByOld := false
+		for _, cj := range conjuncts(is.Cond) {
+			if s := squash(exprStr(cj)); s == old+"!=nil" || s == "nil!="+old {
+				guardedByOld = true
+			}
+		}
+		for _, g := range guardsAt(fd.Body, is.Pos()) {
+			for _, cj := range conjuncts(g.Cond) {
+				if s := squash(exprStr(cj)); (s == old+"!=nil" || s == "nil!="+old) && !g.Negated {
+					guardedByOld = true
+				}
+			}
+		}
+		if !guardedByOld {
+			bad = "`" + exprStr(is.Cond) + "` is not a conjunction with `" + old + " != nil`"
+		} else if recv != "" && strings.Contains(cond, recv+".") {
+			// a further conjunct on the stored value narrows the panic: harmless for old == nil
+		}
+		return true
+	})
+	if n == 0 {
+		r.Check(true, "old-nil-never-panics", nat.Pos(c, fd.Pos()), "no type comparison of old and new leads to a panic")
+		return
+	}
+	r.Check(bad == "", "old-nil-never-panics", nat.Pos(c, site), "the inconsistent-types panic is taken only under `"+old+" != nil` (Go: `op.typ != nil && np.typ != op.typ`); with a value stored, CompareAndSwap(nil, x) returns false"+ternary(bad != "", " — "+bad, ""))
+}
